@@ -1305,7 +1305,7 @@ mod expression_parser {
                 body: Box::new(body),
               });
             } else {
-              let tuple_elements = parameters_or_tuple_elements_cover
+              let mut tuple_elements = parameters_or_tuple_elements_cover
                 .into_iter()
                 .map(|name| {
                   expr::E::LocalId(
@@ -1318,6 +1318,11 @@ mod expression_parser {
                   )
                 })
                 .collect_vec();
+              if tuple_elements.len() == 1 {
+                // `(a,)` is a parenthesized expression with a trailing comma,
+                // not a tuple of one element.
+                return tuple_elements.pop().unwrap();
+              }
               let loc = peeked_loc.union(&right_parenthesis_loc);
               return expr::E::Tuple(
                 expr::ExpressionCommon {
